@@ -4,3 +4,8 @@ import AscaVerif.Model.Place
 import AscaVerif.Model.Seg
 import AscaVerif.Lemmas.Bits
 import AscaVerif.Props.C18
+import AscaVerif.Model.Run
+import AscaVerif.Lemmas.Run
+import AscaVerif.Props.C10
+import AscaVerif.Props.C11
+import AscaVerif.Props.C16
